@@ -149,3 +149,133 @@ Definition jcheck (c : jcase) : bool :=
   | CFacts s fs => list_eqb fact_eqb (schema_facts s) fs
   | CCls c fs => list_eqb cfact_eqb (cls_facts c) fs
   end.
+
+(* ---------------------------------------------------------------- the comparisons are sound *)
+Section JsonInd.
+  Variable P : json -> Prop.
+  Hypothesis Hnull : P JNull.
+  Hypothesis Hbool : forall b, P (JBool b).
+  Hypothesis Hnum : forall z, P (JNum z).
+  Hypothesis Hstr : forall s, P (JStr s).
+  Hypothesis Harr : forall l, Forall P l -> P (JArr l).
+  Hypothesis Hobj : forall kvs, Forall (fun kv : text * json => P (snd kv)) kvs -> P (JObj kvs).
+  Fixpoint json_ind' (j : json) : P j :=
+    match j with
+    | JNull => Hnull | JBool b => Hbool b | JNum z => Hnum z | JStr s => Hstr s
+    | JArr l => Harr ((fix go (l : list json) : Forall P l :=
+                         match l with [] => Forall_nil _ | x :: r => Forall_cons x (json_ind' x) (go r) end) l)
+    | JObj kvs => Hobj ((fix go (l : list (text * json)) : Forall (fun kv : text * json => P (snd kv)) l :=
+                           match l with [] => Forall_nil _ | x :: r => Forall_cons x (json_ind' (snd x)) (go r) end) kvs)
+    end.
+End JsonInd.
+
+Lemma json_eqb_eq a : forall b, json_eqb a b = true -> a = b.
+Proof.
+  induction a as [|x|x|x|l IH|kvs IH] using json_ind'; intros b H; destruct b; simpl in H; try discriminate; try reflexivity.
+  - f_equal. now apply Bool.eqb_prop.
+  - f_equal. now apply Z.eqb_eq.
+  - f_equal. now apply text_eqb_eq.
+  - f_equal. revert l0 H. induction IH as [|p x' Hp _ IHl]; intros [|q y'] H; try discriminate; [reflexivity|].
+    apply andb_true_iff in H. destruct H as [H1 H2]. f_equal; [now apply Hp|now apply IHl].
+  - f_equal. revert kvs0 H. induction IH as [|[k p] x' Hp _ IHl]; intros [|[k' q] y'] H; try discriminate; [reflexivity|].
+    apply andb_true_iff in H. destruct H as [H1 H2]. apply andb_true_iff in H1. destruct H1 as [Hk Hv].
+    apply text_eqb_eq in Hk. simpl in Hp. apply Hp in Hv. subst. f_equal. now apply IHl.
+Qed.
+
+Section ValueInd.
+  Variable P : value -> Prop.
+  Hypothesis Hnone : P VNone.
+  Hypothesis Hbool : forall b, P (VBool b).
+  Hypothesis Hstr : forall s, P (VStr s).
+  Hypothesis Huuid : forall s, P (VUuid s).
+  Hypothesis Henum : forall e x, P (VEnum e x).
+  Hypothesis Hlist : forall l, Forall P l -> P (VList l).
+  Hypothesis Hdict : forall kvs, Forall (fun kv : text * value => P (snd kv)) kvs -> P (VDict kvs).
+  Hypothesis Hobj : forall c fs, Forall (fun kv : text * value => P (snd kv)) fs -> P (VObj c fs).
+  Fixpoint value_ind' (v : value) : P v :=
+    match v with
+    | VNone => Hnone | VBool b => Hbool b | VStr s => Hstr s | VUuid s => Huuid s | VEnum e x => Henum e x
+    | VList l => Hlist ((fix go (l : list value) : Forall P l :=
+                           match l with [] => Forall_nil _ | x :: r => Forall_cons x (value_ind' x) (go r) end) l)
+    | VDict kvs => Hdict ((fix go (l : list (text * value)) : Forall (fun kv : text * value => P (snd kv)) l :=
+                             match l with [] => Forall_nil _ | x :: r => Forall_cons x (value_ind' (snd x)) (go r) end) kvs)
+    | VObj c fs => Hobj c ((fix go (l : list (text * value)) : Forall (fun kv : text * value => P (snd kv)) l :=
+                              match l with [] => Forall_nil _ | x :: r => Forall_cons x (value_ind' (snd x)) (go r) end) fs)
+    end.
+End ValueInd.
+
+Lemma value_eqb_eq a : forall b, value_eqb a b = true -> a = b.
+Proof.
+  assert (Hkv : forall (l : list (text * value)), Forall (fun kv : text * value => forall b, value_eqb (snd kv) b = true -> snd kv = b) l ->
+            forall l',
+              (fix go (x y : list (text * value)) : bool :=
+                 match x, y with
+                 | [], [] => true
+                 | (k, p) :: x', (k', q) :: y' => text_eqb k k' && value_eqb p q && go x' y'
+                 | _, _ => false
+                 end) l l' = true -> l = l').
+  { intros l IH. induction IH as [|[k p] x' Hp _ IHl]; intros [|[k' q] y'] H; try discriminate; [reflexivity|].
+    apply andb_true_iff in H. destruct H as [H1 H2]. apply andb_true_iff in H1. destruct H1 as [Hk Hv].
+    apply text_eqb_eq in Hk. simpl in Hp. apply Hp in Hv. subst. f_equal. now apply IHl. }
+  induction a as [|x|x|x|e x|l IH|kvs IH|c fs IH] using value_ind'; intros b H; destruct b; simpl in H; try discriminate; try reflexivity.
+  - f_equal. now apply Bool.eqb_prop.
+  - f_equal. now apply text_eqb_eq.
+  - f_equal. now apply text_eqb_eq.
+  - apply andb_true_iff in H. destruct H as [H1 H2]. apply text_eqb_eq in H1, H2. now subst.
+  - f_equal. revert l0 H. induction IH as [|p x' Hp _ IHl]; intros [|q y'] H; try discriminate; [reflexivity|].
+    apply andb_true_iff in H. destruct H as [H1 H2]. f_equal; [now apply Hp|now apply IHl].
+  - f_equal. now apply Hkv.
+  - apply andb_true_iff in H. destruct H as [H1 H2]. apply text_eqb_eq in H1. subst. f_equal. now apply Hkv.
+Qed.
+
+Section LvalInd.
+  Variable P : lval -> Prop.
+  Definition optP (kv : text * option lval) : Prop := match snd kv with Some x => P x | None => True end.
+  Hypothesis Htok : forall t v, P (PTok t v).
+  Hypothesis Htree : forall d l, Forall P l -> P (PTree d l).
+  Hypothesis Hraw : forall kvs, Forall optP kvs -> P (PRaw kvs).
+  Fixpoint lval_ind' (x : lval) : P x :=
+    match x with
+    | PTok t v => Htok t v
+    | PTree d l => Htree d ((fix go (l : list lval) : Forall P l :=
+                               match l with [] => Forall_nil _ | y :: r => Forall_cons y (lval_ind' y) (go r) end) l)
+    | PRaw kvs =>
+        Hraw ((fix go (l : list (text * option lval)) : Forall optP l :=
+                 match l with
+                 | [] => Forall_nil _
+                 | (k, o) :: r =>
+                     @Forall_cons _ optP (k, o) r
+                       (match o as o' return optP (k, o') with Some z => lval_ind' z | None => I end) (go r)
+                 end) kvs)
+    end.
+End LvalInd.
+
+Lemma lval_eqb_eq a : forall b, lval_eqb a b = true -> a = b.
+Proof.
+  induction a as [t v|d l IH|kvs IH] using lval_ind'; intros b H; destruct b; simpl in H; try discriminate.
+  - apply andb_true_iff in H. destruct H as [H1 H2]. apply text_eqb_eq in H1.
+    apply (option_eqb_eq text_eqb text_eqb_eq) in H2. now subst.
+  - apply andb_true_iff in H. destruct H as [H1 H2]. apply text_eqb_eq in H1. subst. f_equal.
+    revert children H2. induction IH as [|p x' Hp _ IHl]; intros [|q y'] H; try discriminate; [reflexivity|].
+    apply andb_true_iff in H. destruct H as [H1 H2]. f_equal; [now apply Hp|now apply IHl].
+  - f_equal. revert kvs0 H. induction IH as [|[k p] x' Hp _ IHl]; intros [|[k' q] y'] H; try discriminate; [reflexivity|].
+    apply andb_true_iff in H. destruct H as [H1 H2]. apply andb_true_iff in H1. destruct H1 as [Hk Hv].
+    apply text_eqb_eq in Hk. subst. simpl in Hp.
+    destruct p as [p|], q as [q|]; try discriminate.
+    + apply Hp in Hv. subst. f_equal. now apply IHl.
+    + f_equal. now apply IHl.
+Qed.
+
+(* a passing instance case means exactly: the model's dump is the observed JSON and the model's load is the observed outcome *)
+Lemma jcheck_inst_sound s v d l :
+  jcheck (CInst s v d l) = true -> dump s v = d /\ (do j <- dump s v ;; load s j) = l.
+Proof.
+  simpl. intros H. apply andb_true_iff in H. destruct H as [H1 H2].
+  split; [exact (result_eqb_eq json_eqb json_eqb_eq _ _ H1)|exact (result_eqb_eq value_eqb value_eqb_eq _ _ H2)].
+Qed.
+Lemma jcheck_tree_sound t d l :
+  jcheck (CTree t d l) = true -> dump_tree t = d /\ load_tree (dump_tree t) = l.
+Proof.
+  simpl. intros H. apply andb_true_iff in H. destruct H as [H1 H2].
+  split; [now apply json_eqb_eq|exact (result_eqb_eq lval_eqb lval_eqb_eq _ _ H2)].
+Qed.
